@@ -345,6 +345,8 @@ TEMPLATES = [
     ('two elements of one array with the same format', 'size float[2] = [14.2378,3.5]', '{{?size}[0]:.2f} x {{?size}[1]:.2f}', '14.24 x 3.50'),
     ('two slices of one string', 'name str = "Will Smith"', '{{?name}[:4]}/{{?name}[5:]}', 'Will/Smith'), ('whole array and one element', 'v int[2] = [7,8]', '{{?v}} {{?v}[1]}', '[7, 8] 8'),
     ('one element three times in changing order', 'v int[2] = [7,8]', '{{?v}[1]} {{?v}[0]} {{?v}[1]}', '8 7 8'), ('one node with three formats', 'h float = 1.5', '{{?h}:.1f} {{?h}:.3f} {{?h}}', '1.5 1.500 1.5'),
+    ('precision of twelve digits', 'pi float = 3.14159265358979', '{{?pi}:.12f}', '3.141592653590'), ('width and precision with two digits each', 'pi float = 3.14159265358979', '{{?pi}:20.14e}|', '3.14159265358979e+00|'),
+    ('zero padded width twelve', 'pi float = 3.14159265358979', '{{?pi}:012.3f}', '00000003.142'), ('string width ten', "name str = 'Tina'", '{{?name}:10s}|', 'Tina      |'), ('int width twelve', 'k int = 42', '{{?k}:012d}', '000000000042'),
     ('float with unit only value is rendered', 'h float = 2 m', '{{?h}:.0f}', '2'), ('int as float format', 'k int = 3', '{{?k}:.1f}', '3.0'), ('zero', 'k int = 0', '{{?k}:03d}', '000'),
 ]
 
@@ -374,6 +376,8 @@ def _ties():
                              ('w float = 57.3 kg', '{?w} <= 57.29 kg', False), ('w float = 57.3 kg', '{?w} == 57.31 kg', False), ('w float = 57.3 kg', '{?w} != 57.31 kg', True),
                              ('w float = 57.3 kg', '~({?w} == 57.30001 kg)', False), ('k int = 3', '{?k} == 3', True), ('k int = 3', '{?k} != 3', False), ('k int = 3', '{?k} != 4', True),
                              ('k int = 3', '{?k} <= 3 && {?k} >= 3', True),
+                             ('depth float = -2.5 m', '{?depth} <= -250 cm', True), ('depth float = -2.5 m', '{?depth} >= -2.5 m', True), ('depth float = -2.5 m', '{?depth} >= -250 cm && {?depth} <= -0.0025 km', True),
+                             ('depth float = -2.5 m', '{?depth} <= -2.6 m', False), ('depth float = -2.5 m', '{?depth} >= -2.4 m', False), ('n int = -3', '{?n} >= -3 && {?n} <= -3', True),
                              # two integer nodes in different units: the comparison happens after an exact conversion, nothing is truncated
                              ('height int = 177 cm\nstep int = 1 m', '{?height} == {?step}', False), ('height int = 177 cm\nstep int = 1 m', '{?height} > {?step}', True),
                              ('height int = 177 cm\nstep int = 1 m', '{?height} <= {?step}', False), ('height int = 177 cm\nstep int = 1 m', '{?step} < {?height}', True),
@@ -434,7 +438,7 @@ def scenarios(tier, seed):
         inside = (j % 4) < 2
         fa, fb = (unitkit.ref_units(ua)[0] if ua else 1.0), (unitkit.ref_units(ub)[0] if ub else 1.0)
         if inside:
-            ops, pre = ['==', '!=', '<=', '>='], ['v.b > 0', 'v.d >= -9', 'v.d <= 9']
+            ops, pre = ['==', '!=', '<=', '>='], [('v.b > 0' if j % 8 < 4 else 'v.b < 0'), 'v.d >= -9', 'v.d <= 9']      # ties of negative values as well
         else:
             ops = ['==', '!=', '<=', '>=', '<', '>']
             pre = ['v.b >= 0.1', f'v.b * {fb / fa!r} >= 0.1', 'abs(v.d) >= 12', 'abs(v.d) <= 1000']
